@@ -50,7 +50,7 @@ BaseVerdict ==
     ELSE IF err # "" THEN "model-error:" \o err
     ELSE LET vI == MolVerdict(o, [g \in DOMAIN atoms |-> Strip(atoms[g])], ToSet(inters), gattr, {})
              vP == MolVerdict(o, B.atoms, B.inters, B.gattr, {}) IN
-         IF vI # "ok" THEN "base/I:" \o vI ELSE IF vP # "ok" THEN "base/P:" \o vP ELSE "ok"
+         IF vI # "ok" THEN "base/I:" \o vI ELSE IF Dev = NoDev /\ vP # "ok" THEN "base/P:" \o vP ELSE "ok"
 FinalVerdict ==
   LET o == Obs.final  F == PFinal(inp)
       allowed == IF Uniform(inp) THEN {} ELSE ExclP(inp)
@@ -58,7 +58,8 @@ FinalVerdict ==
     IF err # "" THEN "model-error:" \o err
     ELSE LET vI == MolVerdict(o, ProjAtoms, own, ProjGattr, allowed)
              vP == MolVerdict(o, F.atoms, F.inters, F.gattr, allowed) IN
-         IF vI # "ok" THEN "final/I:" \o vI ELSE IF vP # "ok" THEN "final/P:" \o vP ELSE "ok"
+         \* with the open deviations switched on only the I-layer is compared (it deviates from the P-layer by construction)
+         IF vI # "ok" THEN "final/I:" \o vI ELSE IF Dev = NoDev /\ vP # "ok" THEN "final/P:" \o vP ELSE "ok"
 \* C14: what the written molecule means against ExclP; uniform distance kept and nothing invented
 ExclVerdict ==
   LET o == Obs.final  ox == ToSet(o.inters)  nA == Len(o.atoms)  F == PFinal(inp) IN
